@@ -84,6 +84,9 @@ def run(ctx, rep):
         admitted = [g for g in D.guards if not g[2]]
         rep.analysed["guards/lm=%d" % lm] = {"comparisons": len(D.guards),
                                              "admitted_absolute_thresholds": len(admitted)}
+    nnorm = normalisation_guards(ctx, rep)
+    rep.analysed["normalisation_comparisons"] = nnorm
+    rep.floor("normalisation-comparisons", nnorm, 3)
     rep.analysed["leaves"] = n
     rep.floor("degree-leaves", n, 2 * 12 * 40)
     rep.floor("guards-seen", nguards, 10)
@@ -93,3 +96,48 @@ def fmt(d):
     if d is None or d == "zero":
         return str(d)
     return "(%s,%s)" % (d[0], d[1])
+
+
+def normalisation_guards(ctx, rep):
+    """Comparisons made while normalising the components (completion of ambient / solar production,
+    auxiliary shares): an energy may only be compared with zero or with another energy."""
+    lib = ctx.lib
+    nb = ctx.find_public_fn(lib, "Components::normalize")
+    ev, r, _a = ctx.eval_entry("lib", nb)
+    where = loc_of(nb)
+    roots = [r]
+    for info in ev.loops_info.values():
+        roots.extend(info["next"])
+
+    def energy_valued(t):
+        if t.op == "len":
+            return False
+        for x in tm.subterms(t):
+            if x.op == "len":
+                continue
+            if (x.op == "proj" and x.a[3] == "values") or x.op in ("sumover", "vsumover", "vop"):
+                return True
+        return False
+    seen = set()
+    bad = {}
+    n = 0
+    for root in roots:
+        for t in tm.subterms(root):
+            if t.op not in ("lt", "le", "eq") or t.id in seen or len(t.a) != 2:
+                continue
+            seen.add(t.id)
+            a, b = t.a
+            for x, y in ((a, b), (b, a)):
+                if energy_valued(x) and not energy_valued(y):
+                    n += 1
+                    if y.op == "num" and y.a[0] != 0:
+                        bad.setdefault(str(y.a[0]), t)
+                    elif y.op not in ("num",) and not energy_valued(y) and y.op != "bv":
+                        pass
+    for k, t in sorted(bad.items()):
+        rep.violated("C11/normalize/absolute-threshold/%s" % k, "normalisation compares energies only with zero or with energies (scale free)",
+                     construct=where, why="an energy is compared with the literal %s: %s" % (k, tm.show(t, 3)[:300]))
+    if not bad:
+        rep.discharged("C11/normalize/guards", "every comparison of an energy made while normalising components is with zero or another energy",
+                       derivation="%d comparisons" % n)
+    return n
